@@ -165,16 +165,19 @@ def run_hyp_shard(sub, tier, examples, seed, ctx, shrink_cap_s=45.0, max_size=No
     state = {"first_fail": None}
 
     def prop(case):
-        if state["first_fail"] is not None and time.time() - state["first_fail"] > shrink_cap_s:
+        if state.get("stop") or (
+                state["first_fail"] is not None and time.time() - state["first_fail"] > shrink_cap_s):
             # shrinking budget used up: stop reporting failures so that the shrinker
             # runs out of successful steps; the smallest case seen is already recorded
             ctx.evaluations += 1
             return
         try:
             ctx.run_case(sub, case, reraise=True)
-        except Violation:
+        except Violation as v:
             if state["first_fail"] is None:
                 state["first_fail"] = time.time()
+            if v.tag in ("hang",):  # every further evaluation would cost a full time-out: do not shrink
+                state["stop"] = True
             raise
 
     test = given(strategy)(prop)
